@@ -31,6 +31,10 @@ func (c *Conversation) potentialHeartbeat(plain MessagePlaintext) (toSend messag
 		return
 	}
 
+	return c.heartbeatMessage()
+}
+
+func (c *Conversation) heartbeatMessage() (toSend messageWithHeader, err error) {
 	dataMsg, _, err := c.genDataMsgWithFlag(nil, messageFlagIgnoreUnreadable)
 	if err != nil {
 		return nil, err
